@@ -185,7 +185,7 @@ class chain(AsyncIterator[T]):
         self._owned_iterators = tuple(
             iterable  # type: ignore[misc]
             for iterable in iterables
-            if isinstance(iterable, AsyncIterator) and isinstance(iterable, ACloseable)
+            if isinstance(iterable, AsyncIterator) and hasattr(iterable, "aclose")
         )
         self._iterator = self._chain_iterator(
             iterables or _iterables, self._owned_iterators
@@ -408,8 +408,8 @@ async def tee_peer(
                 peers.pop(idx)
                 break
         # if we are the last peer, try and close the iterator
-        if not peers and isinstance(iterator, ACloseable):
-            await iterator.aclose()
+        if not peers and hasattr(iterator, "aclose"):
+            await iterator.aclose()  # type: ignore[attr-defined]
 
 
 @public_module(__name__, "tee")
@@ -568,8 +568,8 @@ async def zip_longest(
     finally:
         await fill_iter.aclose()  # type: ignore
         for iterator in async_iters:
-            if isinstance(iterator, ACloseable):
-                await iterator.aclose()
+            if hasattr(iterator, "aclose"):
+                await iterator.aclose()  # type: ignore[attr-defined]
 
 
 async def identity(x: T) -> T:
@@ -620,8 +620,8 @@ class _GroupByState(Generic[R, T_co]):
         """Close the underlying iterator"""
         if (group := self.current_group) is not None:
             await group.aclose()
-        if isinstance(self._iterator, ACloseable):
-            await self._iterator.aclose()
+        if hasattr(self._iterator, "aclose"):
+            await self._iterator.aclose()  # type: ignore[attr-defined]
 
 
 class _Grouper(AsyncIterator[T_co], Generic[R, T_co]):
